@@ -317,6 +317,13 @@ class VEnum(V):
         self.seq, self.loc = seq, loc
 
 
+class VZip(V):
+    """zip(a, b, ...) of sequences (each with the location it is read from, if any)"""
+
+    def __init__(self, parts, locs):
+        self.parts, self.locs = parts, locs
+
+
 class VMap(V):
     """dict str->int: dom: Array Int Bool, val: Array Int Int, card: Int"""
 
